@@ -1,33 +1,34 @@
 #!/bin/bash
 # usage: seed_verify.sh <id> <crate> <demo-test-name-filter> [src-dir] [extra nextest args]
-# Confirms a seeded change in the coordinator's own scratch worktree /tmp/seed/V/repo:
+# Confirms a seeded change in the coordinator's own scratch worktree /tmp/seed/$V/repo:
 #  (1) with patch: crate test suite passes (and the binary does NOT contain the demo test),
 #  (2) with patch + demo: the demo test fails, (3) with demo only: the demo test passes.
 # After every change the touched files get a fresh mtime (cargo's freshness check is mtime based).
 id=$1; crate=$2; filt=$3
 src=${4:-/tmp/seed/$id/out}
 extra=${5:-}
-W=/tmp/seed/V/repo
-source /tmp/seed/V/env.sh
+V=${SEEDV:-V}
+W=/tmp/seed/$V/repo
+source /tmp/seed/$V/env.sh
 cd $W && git checkout -q -- . && git clean -fdq
-log=/tmp/seed/V/verify_$id.log
+log=/tmp/seed/$V/verify_$id.log
 : > $log
 fresh() { sleep 1.2; git -C $W status --porcelain | awk '{print $2}' | while read f; do [ -f "$W/$f" ] && touch "$W/$f"; done; sleep 0.2; }
 has_demo() { cargo nextest list -p $crate --offline 2>/dev/null | grep -c "$filt"; }
 echo "== seed $id crate=$crate demo=$filt" | tee -a $log
 git apply $src/patch.diff || { echo "PATCH does not apply" | tee -a $log; exit 2; }
 fresh
-cargo nextest run -p $crate --offline --no-fail-fast $extra > /tmp/seed/V/run1_$id.log 2>&1
-echo "(1) suite with patch [demo in binary: $(has_demo)]: $(grep -E 'Summary' /tmp/seed/V/run1_$id.log | tail -1)" | tee -a $log
-grep -E "^\s+FAIL " /tmp/seed/V/run1_$id.log | sort -u | tee -a $log
+cargo nextest run -p $crate --offline --no-fail-fast $extra > /tmp/seed/$V/run1_$id.log 2>&1
+echo "(1) suite with patch [demo in binary: $(has_demo)]: $(grep -E 'Summary' /tmp/seed/$V/run1_$id.log | tail -1)" | tee -a $log
+grep -E "^\s+FAIL " /tmp/seed/$V/run1_$id.log | sort -u | tee -a $log
 git apply $src/demo.diff || { echo "DEMO does not apply on patch" | tee -a $log; }
 fresh
-cargo nextest run -p $crate --offline $extra -E "test($filt)" > /tmp/seed/V/run2_$id.log 2>&1
-echo "(2) demo with patch [demo in binary: $(has_demo)]: $(grep -E 'Summary' /tmp/seed/V/run2_$id.log | tail -1)" | tee -a $log
+cargo nextest run -p $crate --offline $extra -E "test($filt)" > /tmp/seed/$V/run2_$id.log 2>&1
+echo "(2) demo with patch [demo in binary: $(has_demo)]: $(grep -E 'Summary' /tmp/seed/$V/run2_$id.log | tail -1)" | tee -a $log
 git checkout -q -- . && git clean -fdq
 git apply $src/demo.diff
 fresh
-cargo nextest run -p $crate --offline $extra -E "test($filt)" > /tmp/seed/V/run3_$id.log 2>&1
-echo "(3) demo without patch [demo in binary: $(has_demo)]: $(grep -E 'Summary' /tmp/seed/V/run3_$id.log | tail -1)" | tee -a $log
+cargo nextest run -p $crate --offline $extra -E "test($filt)" > /tmp/seed/$V/run3_$id.log 2>&1
+echo "(3) demo without patch [demo in binary: $(has_demo)]: $(grep -E 'Summary' /tmp/seed/$V/run3_$id.log | tail -1)" | tee -a $log
 git checkout -q -- . && git clean -fdq
 fresh
